@@ -18,7 +18,77 @@ let show (s : vsm) : string =
   let m = List.sort compare (List.map (fun (k, v) -> (int_of_n k, int_of_n v)) s.vmap) in
   "set=" ^ set ^ " map=" ^ String.concat "," (List.map (fun (k, v) -> Printf.sprintf "%d:%d" k v) m)
 
+(* ---- pool model, one instance per payload type (0 vbk, 1 vtb, 2 atv), stepped with the tree verdicts the
+   harness reports. Payload / block codes: v<n> -> 4n, w<n> -> 4n+2, t<n> -> 4n+1.
+     pnew
+     pdef <code> <height> <parent block code> <carried block code>
+     psub <type> <code> <S|T|F> base=<codes>
+     ptry base=.. sv=.. sw=.. sa=..            one connect pass (VbkBlocks, then VTBs, then ATVs)
+     pclean gcw=.. gca=.. gfv=.. gfw=.. gfa=..  cleanUp (connected VTB/ATV to drop; in-flight per type to drop)
+     pdrop w=.. a=..                            removeAll: ids leave the connected sets
+     pclear
+   every command answers the state: "C atv=.. vtb=.. F atv=.. vtb=.. vbk=.." (connected sorted, in flight in
+   sorted-view order) or ABORT *)
+let tbl_ht : (int, int) Hashtbl.t = Hashtbl.create 64
+let tbl_par : (int, int) Hashtbl.t = Hashtbl.create 64
+let tbl_blk : (int, int) Hashtbl.t = Hashtbl.create 64
+let look t (x : n) : n = n_of_int (try Hashtbl.find t (int_of_n x) with Not_found -> 0)
+let f_ht = look tbl_ht and f_par = look tbl_par and f_blk = look tbl_blk
+let pools : pool array = [| pempty; pempty; pempty |]
+let aborted = ref false
+let codes (s : string) : n list =
+  let p = String.index s '=' in
+  let v = String.sub s (p + 1) (String.length s - p - 1) in
+  List.map (fun x -> n_of_int (int_of_string x)) (List.filter (fun x -> x <> "") (String.split_on_char ',' v))
+let arg (name : string) (args : string list) : n list =
+  match List.filter (fun a -> String.length a > String.length name && String.sub a 0 (String.length name + 1) = name ^ "=") args with
+  | a :: _ -> codes a | [] -> []
+let setp i (r : res) = match r with POk s -> pools.(i) <- s | PAbort -> aborted := true
+let ints l = String.concat "," (List.map (fun v -> string_of_int (int_of_n v)) l)
+let sorted_ints l = String.concat "," (List.map string_of_int (List.sort compare (List.map int_of_n l)))
+let pstate () =
+  if !aborted then "ABORT" else
+  Printf.sprintf "C atv=%s vtb=%s F atv=%s vtb=%s vbk=%s" (sorted_ints pools.(2).conn) (sorted_ints pools.(1).conn)
+    (ints pools.(2).infl.vset) (ints pools.(1).infl.vset) (ints pools.(0).infl.vset)
+let carried i = List.map f_blk pools.(i).conn
+
 let handle op args = match op, args with
+  | "pnew", _ -> Hashtbl.reset tbl_ht; Hashtbl.reset tbl_par; Hashtbl.reset tbl_blk;
+    pools.(0) <- pempty; pools.(1) <- pempty; pools.(2) <- pempty; aborted := false; pstate ()
+  | "pdef", [c; h; p; b] ->
+    Hashtbl.replace tbl_ht (int_of_string c) (int_of_string h);
+    Hashtbl.replace tbl_par (int_of_string c) (int_of_string p);
+    Hashtbl.replace tbl_blk (int_of_string c) (int_of_string b); "ok"
+  | "psub", ty :: c :: v :: rest ->
+    let i = int_of_string ty in
+    let vd = (match v with "S" -> Stateless | "T" -> Stale | _ -> Fine) in
+    (* blocks carried by payloads of the other types that are connected are part of what the trees know (base) *)
+    setp i (submit f_ht f_par f_blk (arg "base" rest) vd (n_of_int (int_of_string c)) pools.(i)); pstate ()
+  | "ptry", rest ->
+    let base0 = arg "base" rest in
+    let before1 = pools.(1).conn in
+    setp 0 (tryConnect f_ht f_par f_blk base0 (arg "sv" rest) pools.(0));
+    let base1 = base0 @ carried 0 in
+    setp 1 (tryConnect f_ht f_par f_blk base1 (arg "sw" rest) pools.(1));
+    let base2 = base1 @ List.map f_blk (List.filter (fun p -> not (List.mem p before1)) pools.(1).conn) in
+    setp 2 (tryConnect f_ht f_par f_blk base2 (arg "sa" rest) pools.(2)); pstate ()
+  | "pclean", rest ->
+    setp 0 (cleanUp f_ht [] (arg "gfv" rest) pools.(0));
+    setp 1 (cleanUp f_ht (arg "gcw" rest) (arg "gfw" rest) pools.(1));
+    setp 2 (cleanUp f_ht (arg "gca" rest) (arg "gfa" rest) pools.(2)); pstate ()
+  | "pdrop", rest ->
+    pools.(1) <- dropIds (arg "w" rest) pools.(1);
+    pools.(2) <- dropIds (arg "a" rest) pools.(2); pstate ()
+  | "psync", rest ->
+    (* the connected VBK blocks of the model are the temporary-tree blocks: drop those the trees no longer know *)
+    let base = arg "base" rest in
+    pools.(0) <- dropIds (List.filter (fun x -> not (List.mem x base)) pools.(0).conn) pools.(0);
+    (* connected VTBs / ATVs whose carried block vanished from both trees (a reorg removed it after the temporary
+       copy had been cleaned up): the model's presence test would still count the block *)
+    let vanished i = List.filter (fun p -> not (List.mem (f_blk p) base)) pools.(i).conn in
+    ints (vanished 1 @ vanished 2)
+  | "pclear", _ ->
+    setp 0 (clear0 pools.(0)); setp 1 (clear0 pools.(1)); setp 2 (clear0 pools.(2)); pstate ()
   | "vsm", d :: ops ->
     let div = int_of_string d in
     let height v = n_of_int (int_of_n v / div) in
